@@ -489,6 +489,58 @@ fn sub_wide(input: &[u8], st: &mut Stats) -> R {
     check_script(&s, st)
 }
 
+/// `long-strings`: a NUL-terminated string of 65 530 - 262 140 bytes (more than a 16-bit count can
+/// express; one-, two- and three-byte characters) behind a few words, read with and without a limit
+/// around its length in words, followed by further requests. "Any buffer" includes these.
+fn sub_long_strings(input: &[u8], st: &mut Stats) -> R {
+    let mut cs = Cs::new(input);
+    let unit: &str = ["s", "ab", "\u{e9}", "\u{20ac}", "x\u{e9}"][cs.below(5)];
+    let nbytes = match cs.below(4) {
+        0 => 65_528 + cs.below(16),
+        1 => [65_535usize, 65_536, 65_537, 70_000, 100_000, 131_072, 196_608, 262_131, 262_140][cs.below(9)],
+        2 => 65_536 * unit.len() + cs.below(8),
+        _ => 66_000 + cs.below(190_000),
+    };
+    let mut body = unit.repeat(nbytes / unit.len() + 1).into_bytes();
+    body.truncate(nbytes - nbytes % unit.len());
+    let pre = cs.below(3);
+    let mut buf: Vec<u8> = vec![];
+    for k in 0..pre {
+        buf.extend((0x1000_0000u32 + k as u32).to_le_bytes());
+    }
+    buf.extend(&body);
+    buf.push(0);
+    while buf.len() % 4 != 0 {
+        buf.push(0);
+    }
+    let str_words = body.len() / 4 + 1;
+    let tail = cs.below(4);
+    for k in 0..tail {
+        buf.extend((0x2000_0000u32 + k as u32).to_le_bytes());
+    }
+    for _ in 0..cs.below(4) {
+        buf.push(0x41); // ragged end
+    }
+    let mut reqs: Vec<Req> = (0..pre).map(|_| Req::Word).collect();
+    match cs.below(6) {
+        0 => {}
+        1 => reqs.push(Req::SetLimit(str_words)),
+        2 => reqs.push(Req::SetLimit(str_words + 1 + cs.below(3))),
+        3 => reqs.push(Req::SetLimit(str_words - 1)),
+        4 => reqs.push(Req::SetLimit(16_384 + cs.below(3))),
+        _ => reqs.push(Req::SetLimit(usize::MAX / 4)),
+    }
+    reqs.push(Req::Str);
+    reqs.push(Req::Query);
+    for _ in 0..3 {
+        reqs.push(if cs.bool() { Req::Word } else { Req::Id });
+    }
+    reqs.push(Req::ClearLimit);
+    reqs.push(Req::Word);
+    st.count("long_string_scripts");
+    check_script(&Script { buf, reqs }, st)
+}
+
 /// Hand-minimised inputs kept as plain regression checks.
 fn sub_fixed(input: &[u8], st: &mut Stats) -> R {
     let k = idx(input);
@@ -510,6 +562,7 @@ pub const SUBS: &[Sub] = &[
     Sub { name: "fixed", f: sub_fixed },
     Sub { name: "scripts", f: sub_scripts },
     Sub { name: "wide-scripts", f: sub_wide },
+    Sub { name: "long-strings", f: sub_long_strings },
 ];
 
 pub fn run(ctx: &Ctx) {
@@ -517,6 +570,7 @@ pub fn run(ctx: &Ctx) {
     drive_enum(ctx, &SUBS[0], 8);
     drive_random(ctx, &SUBS[1], ctx.n(200_000, 100_000_000), 300);
     drive_random(ctx, &SUBS[2], ctx.n(20_000, 10_000_000), 400);
+    drive_random(ctx, &SUBS[3], ctx.n(60, 6_000), 64);
     if !ctx.quick() && !ctx.failed() {
         crate::fuzzing::drive_fuzz(ctx, "decoder", 1_000_000);
     }
